@@ -66,28 +66,41 @@ fn pred(name: &str, v: &Violation, cfg: Option<&RunCfg>, trace: Option<&[TraceEv
             use crate::ops::Op;
             use crate::world::Ev;
             let Some(trace) = trace else { return false };
-            trace.iter().any(|t| match &t.ev {
-                Ev::Txn { origin: Some(o), ops, .. } if o == "user" => {
-                    let mut seen: Vec<(crate::ops::Tgt, Option<String>)> = Vec::new();
-                    let mut twice = false;
-                    for op in ops {
-                        let k = match op {
-                            Op::MSet { t, key, .. } | Op::MUpdate { t, key, .. } | Op::MRemove { t, key } => Some((t.clone(), Some(key.clone()))),
-                            Op::XAttrSet { t, key, .. } | Op::XAttrRemove { t, key, .. } => Some((t.clone(), Some(key.clone()))),
-                            Op::MClear { t } => Some((t.clone(), None)),
-                            _ => None,
+            // keys written so far in the current capture step (a step ends when the simulated
+            // clock advances by >= the capture timeout, on reset/clear and on undo/redo)
+            let mut seen: Vec<(crate::ops::Tgt, Option<String>)> = Vec::new();
+            for t in trace.iter() {
+                match &t.ev {
+                    Ev::Special { k, a, .. } => {
+                        let ends = match k.as_str() {
+                            "clock" => a.first().copied().unwrap_or(0) >= 500,
+                            "undo" | "redo" | "undo-reset" | "undo-clear" => true,
+                            _ => false,
                         };
-                        if let Some((t, key)) = k {
-                            if seen.iter().any(|(st, sk)| *st == t && (sk.is_none() || key.is_none() || *sk == key)) {
-                                twice = true;
-                            }
-                            seen.push((t, key));
+                        if ends {
+                            seen.clear();
                         }
                     }
-                    twice
+                    Ev::Txn { origin: Some(o), ops, .. } if o == "user" => {
+                        for op in ops {
+                            let k = match op {
+                                Op::MSet { t, key, .. } | Op::MUpdate { t, key, .. } | Op::MRemove { t, key } => Some((t.clone(), Some(key.clone()))),
+                                Op::XAttrSet { t, key, .. } | Op::XAttrRemove { t, key, .. } => Some((t.clone(), Some(key.clone()))),
+                                Op::MClear { t } => Some((t.clone(), None)),
+                                _ => None,
+                            };
+                            if let Some((t, key)) = k {
+                                if seen.iter().any(|(st, sk)| *st == t && (sk.is_none() || key.is_none() || *sk == key)) {
+                                    return true;
+                                }
+                                seen.push((t, key));
+                            }
+                        }
+                    }
+                    _ => {}
                 }
-                _ => false,
-            })
+            }
+            false
         }
         _ => false,
     }
